@@ -432,8 +432,10 @@ def run(tier, seed):
     if missing:
         rep.disagree({"kind": "family-module-does-not-compile"}, "error", {"modules": missing})
 
+    t_phase0 = time.time() - t0
     t = tlc_future.result()
     tlc_pool.shutdown()
+    t_tlc_wait = time.time() - t0 - t_phase0
     if not t.ok:
         sys.stderr.write(t.out[-6000:])
         core.die("TLC failed (%s): %s" % (t.violation or t.rc, t.cmd))
@@ -496,6 +498,18 @@ def run(tier, seed):
         r["dir"] = d
         return {"nworkers": nthreads, "seed": sd, "order": order, "mode": "cythonize(nthreads)"}, r
 
+    # process / directory history: compile the include+profile module and one corpus module alone, three times in the same directory
+    singles = ["g_profile.pyx", "g_names.pyx"]
+
+    def run_hist():
+        d2 = os.path.join(wd, "hist")
+        make_tree(d2, files)
+        hist = []
+        for k in range(3):
+            out = os.path.join(d2, "o%d.json" % k)
+            core.run_child(_CHILD, [d2, "pool", json.dumps(singles), "1", out], with_snapshot=True, timeout=900, env={"PYTHONHASHSEED": "0"})
+            hist.append(json.load(open(out)) if os.path.exists(out) else {"sha": {}})
+        return hist
     if tier == "quick":
         todo, uncovered = select(classes, 6, rng)
         pools = [(2, 3, list(GROUP_HEAD))]
@@ -510,9 +524,12 @@ def run(tier, seed):
         core.die("selection does not cover the hazard signatures %s" % sorted(uncovered))
     with concurrent.futures.ThreadPoolExecutor(max_workers=8) as ex:
         fut_pool = [ex.submit(run_pool, x) for x in enumerate(pools)]
+        fut_hist = ex.submit(run_hist)
         results = list(ex.map(run_class, enumerate(todo)))
         pool_results = [f.result() for f in fut_pool]
+        hist = fut_hist.result()
 
+    t_classes = time.time() - t0 - t_phase0 - t_tlc_wait
     n_cmp = 0
     n_hist = 0
     exec_sigs = set()
@@ -545,15 +562,6 @@ def run(tier, seed):
                     detail["first_difference"] = first_difference(os.path.join(alone_dir(m), cfile), os.path.join(r["dir"], cfile))
                 rep.disagree({"kind": "batch-differs-from-fresh", "module": m, "group": group_of[m], "nthreads": cls["nworkers"]},
                              "bytes-differ" if got else "compile-failed", detail)
-    # process / directory history: compile the include+profile module and one corpus module alone, three times in the same directory
-    d2 = os.path.join(wd, "hist")
-    make_tree(d2, files)
-    singles = ["g_profile.pyx", "g_names.pyx"]
-    hist = []
-    for k in range(3):
-        out = os.path.join(d2, "o%d.json" % k)
-        core.run_child(_CHILD, [d2, "pool", json.dumps(singles), "1", out], with_snapshot=True, timeout=900, env={"PYTHONHASHSEED": "0"})
-        hist.append(json.load(open(out)) if os.path.exists(out) else {"sha": {}})
     for k in range(3):
         for m in singles:
             n_cmp += 1
@@ -570,6 +578,7 @@ def run(tier, seed):
         "hazard_signatures_published": sorted("%s:%s" % s for s in all_sigs), "hazard_signatures_executed": sorted("%s:%s" % s for s in exec_sigs),
         "action_coverage": {a: list(t.coverage.get(a, (0, 0))) for a in ("Take", "ReadOne", "Memo", "Truncate", "Write", "Observe")},
         "modules": mods, "groups": groups,
+        "phase_wall_s": {"fresh_outputs_and_tlc": round(t_phase0, 1), "waiting_for_tlc": round(t_tlc_wait, 1), "classes_and_batches": round(t_classes, 1)},
         "modules_not_compilable_standalone": dropped,
         "rule": "environment classes = final states of the model: job order x PYTHONHASHSEED {0, 1, seeded, random} x {1, 2} worker processes x "
                 "process histories (which jobs each process ran, in order); a class is executed as one real process per model process that "
